@@ -136,6 +136,27 @@ def blockstruct(rng, n):
     return bytes(out[:n])
 
 
+def noisecopies(rng, n):
+    """regions of random bytes carrying sparse short copies at a few recurring distances (barely compressible, yet with sequences and
+    repeat offsets), alternating with well-compressible text: partitions of a split block end up raw next to compressed ones"""
+    out = bytearray()
+    dists = [rng.randint(8, 3000) for _ in range(rng.choice([1, 2, 3]))]
+    while len(out) < n:
+        m = rng.choice([2000, 20000, 50000, 90000])
+        if rng.random() < 0.55:
+            seg = bytearray(randbytes(rng, m))
+            gap = rng.choice([40, 150, 600])
+            i = max(dists) + 1
+            while i + 6 < m:
+                d = rng.choice(dists); ln = rng.choice([4, 4, 5, 6])
+                seg[i:i + ln] = seg[i - d:i - d + ln]
+                i += rng.randint(gap // 2, gap * 2)
+            out += seg
+        else:
+            out += text(rng, m)
+    return bytes(out[:n])
+
+
 KINDS = [text, randbytes, periodic, repcodes, small_alphabet, runs, tinymatches]
 
 
@@ -147,5 +168,5 @@ def gen(rng, maxn):
         n = rng.randint(0, min(maxn, 3000))
     else:
         n = rng.randint(0, maxn)
-    f = rng.choice(KINDS + [mixed, mixed, text, longcopies])
+    f = rng.choice(KINDS + [mixed, mixed, text, longcopies, noisecopies])
     return f.__name__, f(rng, n)
